@@ -32,6 +32,7 @@ func tSet(a *ltype) *ltype     { return &ltype{k: "Set", a: a} }
 func tProd(a, b *ltype) *ltype { return &ltype{k: "Prod", a: a, b: b} }
 func tOption(a *ltype) *ltype  { return &ltype{k: "Option", a: a} }
 func tNotif(a *ltype) *ltype   { return &ltype{k: "Notif", a: a} }
+func tMap(k, v *ltype) *ltype  { return &ltype{k: "Map", a: k, b: v} } // association list, `Ro.assocSet`
 func tProdN(ts []*ltype) *ltype {
 	if len(ts) == 0 {
 		return tUnit
@@ -61,6 +62,8 @@ func (t *ltype) lean(atom bool) string {
 		s, compound = "Notif "+t.a.lean(true), true
 	case "Prod":
 		s, compound = t.a.lean(true)+" × "+t.b.lean(false), true
+	case "Map":
+		s, compound = "List ("+t.a.lean(true)+" × "+t.b.lean(false)+")", true
 	}
 	if compound && atom {
 		return "(" + s + ")"
@@ -83,7 +86,7 @@ func sameType(a, b *ltype) bool {
 		return a.name == b.name
 	case "List", "Set", "Option", "Notif":
 		return sameType(a.a, b.a)
-	case "Prod":
+	case "Prod", "Map":
 		return sameType(a.a, b.a) && sameType(a.b, b.b)
 	}
 	return true
@@ -131,12 +134,15 @@ func isLit(e expr, s string) bool {
 
 var binPrec = map[string]int{
 	"||": 30, "&&": 35, "=": 50, "≠": 50, "<": 50, ">": 50, "≤": 50, "≥": 50, "∈": 50,
-	"++": 65, "+": 65, "::": 67,
+	"++": 65, "+": 65, "::": 67, "%": 70,
 }
 
 func prec(e expr) int {
 	switch x := e.(type) {
 	case eAtom:
+		if strings.HasPrefix(x.s, "(") {
+			return 100
+		}
 		if strings.ContainsAny(x.s, " ") {
 			return 70
 		}
@@ -268,9 +274,11 @@ func toBool(v val) val {
 
 // one segment of an emission list
 type seg struct {
-	kind string // next | error | complete | map
+	kind string // next | error | complete | map | range
 	ctx  expr
-	arg  expr // value / error; for map: the list that is mapped
+	arg  expr   // value / error; for map: the list that is mapped
+	n    expr   // range: the bound
+	v    string // range: the loop variable
 }
 
 type tree interface{}
@@ -308,6 +316,9 @@ func ppEmits(es []seg) string {
 		case "map":
 			flush()
 			parts = append(parts, pp(s.arg, 90)+".map (Notif.next "+pp(s.ctx, 90)+")")
+		case "range":
+			flush()
+			parts = append(parts, "(List.range "+pp(s.n, 90)+").map (fun "+s.v+" => Notif.next "+pp(s.ctx, 90)+" "+pp(s.arg, 90)+")")
 		}
 	}
 	flush()
